@@ -9,7 +9,6 @@ NA = {
  "C02": "liveness ('no wake-up is lost') over interleavings of several tasks and real wakers: not expressible as a bounded sequential model-checking query, Kani does not model threads, and " + R,
  "C03": "needs Channel::call's drop guard, the request and cancel queues (tokio mpsc) and pump_write together over interleavings: " + R,
  "C04": "needs BaseChannel::poll_next, Abortable and InFlightRequest::execute in a client->server->client composition: " + R,
- "C06": "expiry is server InFlightRequests::poll_expired on a real tokio DelayQueue, which cannot run without a tokio runtime; only the arming arithmetic is reachable (harness c16_server_arming_exact, reported under C16), too little to claim the property; " + R,
  "C08": "start_request (Span, OpenTelemetry context, hash table) and the response fan-in of BaseChannel/Requests: " + R,
  "C09": "fault injection at the k-th transport operation requires running the dispatch / channel state machines for k operations: " + R,
  "C10": "shutdown ordering of the same two state machines: " + R,
@@ -29,10 +28,12 @@ REPLAY = "every failing harness is re-run with Kani concrete playback, the solve
 checks = [
  chk("C05", "Bounded symbolic model checking (Kani/CBMC) of the deadline-arming arithmetic only: util::TimeUntil and the timeout expression the client hands to its timer queue, for every pair of Instants, every queueing delay. Never-early / exact-for-spans<=365d / zero-when-expired. That the dispatch then completes the call with DeadlineExceeded is NOT decided (dispatch out of CBMC's reach).",
      "in-crate overlay on a scratch copy; arming expression extracted textually each run; Instant::now stubbed; " + REPLAY, "Kani/CBMC over tarpc's own time_until + extracted arming expression, symbolic clock; native replay", "DESIGN §3 C05"),
+ chk("C06", "Bounded symbolic model checking (Kani/CBMC) of the server's deadline-arming arithmetic only (same scope as C05 on the client): util::TimeUntil and the timeout expression start_request hands to the timer queue, for every pair of Instants and every registration delay: never late, exact for spans <= 365 d, zero when expired on arrival. That expiry then aborts the handler, that nothing is transmitted afterwards and that other requests are unaffected is NOT decided (server channel out of CBMC's reach).",
+     "in-crate overlay on a scratch copy; arming expression extracted textually each run; Instant::now stubbed; " + REPLAY, "Kani/CBMC over tarpc's own time_until + extracted server arming expression, symbolic clock; native replay", "DESIGN §3 C06"),
  chk("C07", "Bounded symbolic model checking (Kani/CBMC) of tarpc's real (de)serialisation of Context/Request through a typed wire model: for every clock reading, deadline, transit and processing delay (u32 s + ns), 1 and 3 hops, three codec conventions: never earlier, later by at most transit, expired arrives as now, omitted deadline = now+10 s.",
      "harness-side serde format (wire model) whose integer conventions are validated natively against real bincode/serde_json each run; Instant::now stubbed; handler hand-off and context::current() outside; " + REPLAY, "Kani/CBMC over the derived serde impls + absolute_to_relative_time with a symbolic clock; native replay", "DESIGN §3 C07"),
  chk("C15", "Bounded symbolic model checking (Kani/CBMC) of the wire schema: every message variant with symbolic ids/bodies/128-bit trace ids round-trips under varint, fixed-width and self-describing conventions; sequences of 2-3 messages stay ordered and complete; all 39 stable io::ErrorKinds x 3 codec conventions (18 portable exact, others -> Other); any u32 code decodes; optional fields default. Framing under fragmentation, end-of-stream and the in-memory transports are NOT decided.",
-     "wire model as in C07 (validated natively); payload strings empty, bodies u32/[u8;8]; error-kind counterexamples are additionally replayed through the real tokio_serde Bincode/Json codecs; " + REPLAY, "Kani/CBMC differential round-trip harnesses over the derived serde impls and the error-kind table; real-codec replay", "DESIGN §3 C15"),
+     "wire model as in C07 (validated natively); payload strings empty, bodies u32/[u8;8]; error-kind counterexamples are additionally replayed through the real tokio_serde Bincode/Json codecs; " + REPLAY, "Kani/CBMC differential round-trip harnesses over the derived serde impls, error-kind table and transport forwarding; MIR->SMT (z3+cvc5) second engine on the error-kind table; real-codec replay", "DESIGN §3 C15"),
  chk("C16", "Bounded symbolic model checking (Kani/CBMC) of every piece of arithmetic a peer- or caller-chosen deadline reaches: decode (any u64 s / u32 ns), timer arming on both ends against DelayQueue::insert's precondition, and the rpc.deadline span field against humantime's Display precondition. Malformed frames / byte-level decoders / floods are NOT decided.",
      "environment contracts of tokio-util's DelayQueue (constants read from the pinned source) and humantime's Display are validated natively each run; queue age <= 30 y, wheel lag <= 400 d, clock <= 2^40 s; counterexamples are replayed against the real BaseChannel (bytes over a duplex + LengthDelimited + Bincode) and the real client dispatch under tokio, with and without a fmt subscriber; " + REPLAY, "Kani/CBMC panic-freedom + environment-precondition harnesses over decode/arming/span-field code; real-endpoint replay", "DESIGN §3 C16"),
  chk("C17", "Bounded symbolic model checking (Kani/CBMC) over the code the real proc macro generates for 5 enumerated service definitions / 19 methods: every method choice, argument tuple and context is decided by the solver; reserved-name rejection is decided by rustc. The quantifier over programs is NOT reached (the family is enumerated).",
@@ -49,7 +50,9 @@ man = {"version": 1,
  "hooks": {"guard": "none in /repo: in-crate harnesses live in /verif/overlay and are appended (cfg(kani) / cfg(verif_replay)) to a scratch COPY of /repo at check time",
            "enable": "each check copies /repo's working tree to /tmp/verif-scratch/<id>/repo, builds the harness crates (path dependency on the copy) or injects the overlay into the copy, and deletes the copy afterwards",
            "baseline_off_cmd": "cd /repo && cargo test --workspace --no-fail-fast --offline", "source_commits": [], "add_only": True},
- "engines": [{"name": "kani-cbmc", "path": "/verif/lib/kprop.py", "serves_properties": sorted(claimed),
+ "engines": [{"name": "mir2smt", "path": "/verif/mir2smt/mir2smt.py", "serves_properties": ["C15"],
+              "kind_free_text": "rustc nightly MIR dump of tarpc -> SMT-LIB2 bit-vector encoding of the io::ErrorKind tables composed with codec wire functions -> z3 4.8.12 and cvc5 1.0 (must agree); translation validated against the real functions under real codecs each run"},
+             {"name": "kani-cbmc", "path": "/verif/lib/kprop.py", "serves_properties": sorted(claimed),
               "kind_free_text": "Kani 0.68 / CBMC 6.11 (cadical) bounded symbolic execution of the compiled tarpc code; harness crates in /verif/harness, in-crate overlay in /verif/overlay; counterexamples replayed natively (/verif/harness/*/src/main.rs, /verif/replay)"}],
  "checks": checks,
  "notes": "See DESIGN.md. exit 0 = held within the stated bounds; 1 = natively reproduced counterexample (VIOLATION line); 2 = inconclusive (timeout / OOM / tool error / vacuous harness / counterexample that does not reproduce). Four genuine defects were found and repaired by 'fix:' commits in /repo (known_findings.json, DESIGN §5).",
